@@ -198,9 +198,9 @@ theorem encrypt_tie (P : Prims) {S : DstSpec} {ρ δ ω : Type} (E : EncryptEnv 
       match encryptInit P tape (rs.map E.recOf) E.hdrSegs (E.absD d) with
       | (.ok (w, k, t'), d2) =>
           res.1 = E.mkW k res.2.2.1 ∧ res.2.1 = none ∧ E.absD res.2.2.1 = d2 ∧ res.2.2.2 = t' ∧ w = Stream.Writer.new d2
-      | (.error e, d2) => encErrRel E.eRand e res.2.1 ∧ E.absD res.2.2.1 = d2 := by
+      | (.error e, d2) => res.1 = E.nilW ∧ encErrRel E.eRand e res.2.1 ∧ E.absD res.2.2.1 = d2 := by
   cases rs with
-  | nil => exact ⟨_, rfl, rfl, rfl⟩
+  | nil => exact ⟨_, rfl, rfl, rfl, rfl⟩
   | cons r rs' =>
     generalize hrs : r :: rs' = rs
     have hne : (Go.len rs == (0:Int)) = false := by subst hrs; simp [Go.len]; omega
@@ -214,7 +214,7 @@ theorem encrypt_tie (P : Prims) {S : DstSpec} {ρ δ ω : Type} (E : EncryptEnv 
     cases hd : draw 16 tape with
     | none =>
       simp only [tapeRead_none E.eRand hd]
-      exact ⟨_, rfl, Or.inl rfl, rfl⟩
+      exact ⟨_, rfl, rfl, Or.inl rfl, rfl⟩
     | some bt =>
       obtain ⟨fk, t⟩ := bt
       simp only [tapeRead_some E.eRand hd, writeAt16 fk (draw_length hd)]
@@ -230,7 +230,7 @@ theorem encrypt_tie (P : Prims) {S : DstSpec} {ρ δ ω : Type} (E : EncryptEnv 
         | ret v =>
           obtain ⟨w, g, d', t2⟩ := v
           obtain ⟨rfl, rfl, hg⟩ := hrel
-          exact ⟨_, rfl, hg, rfl⟩
+          exact ⟨_, rfl, rfl, hg, rfl⟩
       | ok st =>
         obtain ⟨stanzas, t'⟩ := st
         rw [hwa] at hrel
@@ -249,12 +249,12 @@ theorem encrypt_tie (P : Prims) {S : DstSpec} {ρ δ ω : Type} (E : EncryptEnv 
           rw [hwr] at hd'
           simp only at hd'
           cases b with
-          | false => exact ⟨_, rfl, Or.inl rfl, hd'⟩
+          | false => exact ⟨_, rfl, rfl, Or.inl rfl, hd'⟩
           | true =>
             cases hn : draw 16 t2 with
             | none =>
               simp only [tapeRead_none E.eRand hn]
-              exact ⟨_, rfl, Or.inl rfl, hd'⟩
+              exact ⟨_, rfl, rfl, Or.inl rfl, hd'⟩
             | some nt =>
               obtain ⟨nonce, t3⟩ := nt
               simp only [tapeRead_some E.eRand hn, writeAt16 nonce (draw_length hn), E.hKey, E.hNew]
@@ -266,7 +266,7 @@ theorem encrypt_tie (P : Prims) {S : DstSpec} {ρ δ ω : Type} (E : EncryptEnv 
               rw [hw2] at hd''
               simp only at hd''
               cases b2 with
-              | false => exact ⟨_, rfl, Or.inr rfl, hd''⟩
+              | false => exact ⟨_, rfl, rfl, Or.inr rfl, hd''⟩
               | true => exact ⟨_, rfl, rfl, rfl, hd'', rfl, hd'' ▸ rfl⟩
 
 end GoTie
